@@ -137,6 +137,24 @@ PROPS = {
         note="element destruction observed through json_object_set_userdata delete callbacks; capacity read from struct array_list for merging only",
         assumptions=COMMON_ASSUMPTIONS,
     ),
+    "C06": dict(
+        level="model_checking",
+        runs=[dict(harness="c06", variant="san", shards=16, args=["level=a"], tag="lh_table"),
+              dict(harness="c06", variant="san", shards=32, args=["level=b"], tag="object")],
+        deadline=dict(quick=400, thorough=2400),
+        rule="level A: lh_table with harness hash/equality, every assignment of hashes {0,1,2,3,5} to the keys x initial size 1..4, operations insert / insert(constant key) / "
+             "delete / delete_entry / resize(1,size,2*size), BFS to a fix-point merged on (slot array incl. tombstones, order list, size); level B: json_object with keys "
+             "{'', a, b, 300-byte, two keys searched to collide with 'a' modulo 16 and 32} x both string hashes x 4 seeds, from the empty object and from 10 insertions "
+             "(so the 16->32 growth is inside the bound), operations add / add_ex(KEY_IS_NEW) / add_ex(CONSTANT_KEY) / add NULL / del; oracle after every transition: "
+             "length, lookup of every key, 5 iteration forms, serialization, release set, and foreach-with-deletion at every position; non-trivial = distinct state",
+        bound=dict(quick="level A 3 keys (500 configurations) to fix-point; level B depth 4", thorough="level A 4 keys (2500 configurations) to fix-point; level B depth 6"),
+        states_stat="states", transitions_stat="transitions",
+        technique="explicit-state BFS of operation histories on the real hash table / object (ASan build) to a fix-point, ordered-map reference model",
+        claim="every reachable table state (all collision patterns, tombstone chains, wrap-around, growth with tombstones) for the key universe was visited and compared with an "
+              "ordered map after every transition, including all iteration forms and deletion of the current key during foreach",
+        note="slot array read from struct lh_table for merging only; level B seeds injected through arc4random",
+        assumptions=COMMON_ASSUMPTIONS,
+    ),
 }
 
 NOT_APPLICABLE = {}
